@@ -1275,7 +1275,7 @@ impl Check for C16 {
         "C16"
     }
     fn workloads(&mut self, tier: Tier, _seed: u64) -> Vec<(String, u64)> {
-        let k = if tier == Tier::Quick { 1 } else { 30 };
+        let k = if tier == Tier::Quick { 10 } else { 120 };
         vec![
             ("Table".into(), 16_000 * k),
             ("InlineTable".into(), 12_000 * k),
